@@ -109,7 +109,7 @@ struct Shadow {
 static std::string cls_of(const Shadow& s) { return s.L.n == 0 ? "dim0" : s.L.empty ? (s.marked ? "empty-marked" : "empty-unmarked") : s.nonunit ? "point-divisor!=1" : "unit-divisors"; }
 static std::string cls_of(const Shadow& a, const Shadow& b) {
   if (a.L.n == 0) return "dim0";
-  if (a.L.empty || b.L.empty) return "empty-operand";
+  if (a.L.empty || b.L.empty) return std::string("empty-operand") + (((a.L.empty && !a.marked) || (b.L.empty && !b.marked)) ? ",unmarked" : "") + ((a.nonunit || b.nonunit) ? ",point-divisor!=1" : "");
   return (a.nonunit || b.nonunit) ? "point-divisor!=1" : "unit-divisors";
 }
 static bool nontrivial(const Lattice& L) { return !L.empty && !ref::is_universe(L); }
@@ -891,10 +891,12 @@ static void run_case(uint64_t) {
         std::unique_ptr<Grid> X, Y;
         if (op.uses_b && ai == bi) { X.reset(new Grid(A)); Y.reset(new Grid(A)); }
         auto preflight = [&](Grid& x, const Grid& y, const char* who) -> bool {
-          if (!(unmarked_empty(x, SA.L) || (op.uses_b && unmarked_empty(y, SB.L)))) return true;
+          bool eu = unmarked_empty(x, SA.L) || (op.uses_b && unmarked_empty(y, SB.L));
+          bool sx = op.name == "simplify_using_context_assign" && (SA.nonunit || SB.nonunit);   // reaches PPL_UNREACHABLE through relation_with(Congruence)
+          if (!eu && !sx) return true;
           hx::count("preflight"); std::string rep;
           if (survives_in_child([&]() { op.apply(x, y); (void) x.OK(); Grid c(x); (void) c.minimized_grid_generators(); (void) c.minimized_congruences(); }, rep)) return true;
-          violation("C05.crash." + op.name + ":empty-unmarked-operand", rep + " | " + who + " status " + status_line(x) + " receiver congruences " + show(SA.C));
+          violation("C05.crash." + op.name + (eu ? ":empty-unmarked-operand" : ":point-divisor!=1"), rep + " | " + who + " status " + status_line(x) + " receiver congruences " + show(SA.C));
           return false;
         };
         if (!preflight(A, B, "receiver")) return;
